@@ -215,6 +215,28 @@ def run_case(spec, inputs=None):
                 harness.results_digest(r_same), harness.results_digest(r_new)),
               extra=dict(same_object=repr(e_same), equal_copy=repr(e_new)))
         hist.append("baseline-edited-in-place")
+    # one live feed frame serves two different requests: first a bootstrap margin run, then this case's own request,
+    # both on the caller's SAME frame object; the second answer must be the one a fresh frame gives
+    if est != "bootstrap" and spec["i"] % 2 == 1 and "margin" not in call["estimands"] and not call.get("feed_as_lists") \
+            and el.election_id.endswith("G") and "baseline_pointer" not in el.config[el.election_id][0]:
+        objs4 = harness.shared_objects(el, feed, call)
+        mcall = copy.deepcopy(call)
+        mcall.update(pi_method="bootstrap", estimands=["margin"], features=["baseline_normalized_margin"],
+                     fixed_effects={}, aggregates=["postal_code", "unit"])
+        mcall["model_parameters"] = dict(B=5, lambda_=1.0, seed=1, fit_turnout_outlier_model=False,
+                                         fit_margin_outlier_model=False)
+        objs_m = harness.shared_objects(el, feed, mcall)
+        objs_m["feed"] = objs4["feed"]  # the same live frame object
+        with harness.patched() as p:
+            if est == "gaussian":
+                harness.fast_boot_sigma(p)
+            harness.run_estimates_shared(el, feed, mcall, cm.ModelClient(), objs_m)
+            r_after, e_after = harness.run_estimates_shared(el, feed, call, cm.ModelClient(), objs4)
+        if e_after is not None or diff_tables(d1_tables, harness.results_digest(r_after)):
+            V("after-other-request-on-the-same-feed-frame",
+              [] if e_after is not None else diff_tables(d1_tables, harness.results_digest(r_after)),
+              extra=dict(raised=repr(e_after), feed_columns_now=list(objs4["feed"].columns)))
+        hist.append("same-feed-frame-after-margin-run")
     out["counters"]["runs"] = 8
     # (vi) the seed is wired: another seed can change the output
     scall = copy.deepcopy(call)
